@@ -114,6 +114,18 @@ func runC04(t *testing.T, s c04Scn) (x nExec) {
 				leaver = s.N - 1
 				go func() { _ = c.nodes[s.N-1].M.Leave(2 * time.Second) }()
 			})
+		case "update+leave":
+			// the departing member changes its metadata and leaves right afterwards: the departure
+			// carries the raised incarnation and may overtake the update on its way to some observer
+			c.at(at, "UpdateNode-then-Leave", func() {
+				leaver = s.N - 1
+				updates[s.N-1]++
+				c.nodes[s.N-1].D.SetMeta([]byte("meta-last-words"))
+				go func() {
+					_ = c.nodes[s.N-1].M.UpdateNode(2 * time.Second)
+					_ = c.nodes[s.N-1].M.Leave(2 * time.Second)
+				}()
+			})
 		case "leave+shutdown":
 			c.at(at, "Leave", func() {
 				leaver = s.N - 1
@@ -207,7 +219,7 @@ func TestC04(t *testing.T) {
 			orders = [][]int{{0, 1, 2, 3}, {3, 1, 0, 2}}
 		}
 		for oi, o := range orders {
-			for _, op := range []string{"none", "update", "update-empty", "leave", "leave+shutdown", "bcast", "reliable", "join-again"} {
+			for _, op := range []string{"none", "update", "update-empty", "leave", "update+leave", "leave+shutdown", "bcast", "reliable", "join-again"} {
 				for _, at := range []int{700, 1900, 3300} {
 					if op == "none" && at != 700 {
 						continue
@@ -228,7 +240,7 @@ func TestC04(t *testing.T) {
 	for si, s := range scns {
 		s := s
 		b := bound
-		if !thorough() && !(s.Op == "none" || s.Op == "leave" || s.Op == "update" || s.Op == "update-empty" || s.Op == "leave+shutdown") {
+		if !thorough() && !(s.Op == "none" || s.Op == "leave" || s.Op == "update" || s.Op == "update-empty" || s.Op == "update+leave" || s.Op == "leave+shutdown") {
 			b = 0 // quick: deviations only on the core scenarios
 		}
 		if b == 0 && !mine(si) {
